@@ -82,8 +82,8 @@ def check_C01(ctx, rep):
            'nfa_algorithms.nfa_accepts_word', 'nfa.NFA.E')
     effect.check_no_operand_mutation(ctx, rep, fs)
     n = effect.check_guarded_reads(ctx, rep, [f for f in _alg_funcs(ctx, ['nfa_algorithms']) if not f.name.endswith('_in_place')])
-    if n < 3:
-        raise AnalysisError('fewer than 3 NFA transition-map reads found')
+    if n < 1:
+        raise AnalysisError('no NFA transition-map read found')
     _closed(ctx, rep, ['nfa_algorithms.nfa_accepts_word'], 2)
     order.check_independence(ctx, rep, F(ctx, 'dfa_algorithms.dfa_accepts_word', 'nfa_algorithms.nfa_accepts_word', 'nfa_algorithms.epsilon_closure', 'nfa_algorithms._nfa_cache'))
     state.check_hidden_state(ctx, rep, modules=['nfa_algorithms', 'dfa_algorithms'])
@@ -129,12 +129,14 @@ def check_C03(ctx, rep):
     rep.not_decided += ['language equivalence for all words']
     _worklists_in(ctx, rep, ['nfa_algorithms.nfa_to_dfa', 'nfa_algorithms.epsilon_closure'])
     _effect_on(ctx, rep, ['nfa_algorithms.nfa_to_dfa'])
-    effect.check_guarded_reads(ctx, rep, F(ctx, 'nfa_algorithms.nfa_to_dfa'))
+    # the reads of N.delta that the construction performs, itself or through the step / closure helpers it calls
+    reach = state.reachable_functions(ctx, F(ctx, 'nfa_algorithms.nfa_to_dfa'))
+    effect.check_guarded_reads(ctx, rep, [g for g in reach.values() if g.module.base == 'nfa_algorithms.py' and not g.name.endswith('_in_place')])
     state.check_hidden_state(ctx, rep, modules=['nfa_algorithms'])
     work.check_marker_alias(ctx, rep, ctx.prog.func('nfa_algorithms.nfa_to_dfa'))
     _closed(ctx, rep, ['nfa_algorithms.nfa_to_dfa'], 3)
-    if closed.check_subset_names(ctx, rep, ctx.prog.func('nfa_algorithms.nfa_to_dfa')) < 3:
-        raise AnalysisError('fewer than 3 subset naming / enqueue sites in nfa_to_dfa')
+    if closed.check_subset_names(ctx, rep, ctx.prog.func('nfa_algorithms.nfa_to_dfa')) < 2:
+        raise AnalysisError('fewer than 2 subset naming / enqueue sites in nfa_to_dfa')
 
 
 def check_C04(ctx, rep):
@@ -248,7 +250,8 @@ def check_C06(ctx, rep):
                        'regexp_algorithms.RegexpToNFAGenerator.generate_one'])
     fresh.check_eps_translation(ctx, rep, ctx.prog.func('nfa_algorithms._add_nfa_transitions'))
     dispatch.check_generator_mapping(ctx, rep, ctx.prog.func('regexp_algorithms.RegexpToNFAGenerator.generate'))
-    ka_rules.check_rip_step(ctx, rep, ctx.prog.func('regexp_algorithms.gnfa_minimize'))
+    if not ka_rules.check_rip_model(ctx, rep, ctx.prog.func('regexp_algorithms.gnfa_minimize')):
+        ka_rules.check_rip_step(ctx, rep, ctx.prog.func('regexp_algorithms.gnfa_minimize'))
     ka_rules.check_gnfa_edges(ctx, rep, ctx.prog.func('regexp_algorithms.dfa_to_gnfa'))
     _simplifier(ctx, rep)
     state.check_hidden_state(ctx, rep, modules=['regexp_algorithms', 'nfa_algorithms'])
@@ -269,8 +272,8 @@ def check_C07(ctx, rep):
     P = ctx.prog.func
     if cyk.check_cyk_schedule(ctx, rep, P('cfg_algorithms.cfg_cyk_matrix')) < 12:
         rep.note('CYK schedule not evaluated for all n <= 12')
-    if cyk.check_cnf_use(ctx, rep, P('cfg_algorithms.cfg_accepts_word')) < 3:
-        raise AnalysisError('fewer than 3 grammar uses found in cfg_accepts_word')
+    if cyk.check_cnf_use(ctx, rep, P('cfg_algorithms.cfg_accepts_word')) < 1:
+        raise AnalysisError('no use of the converted grammar found in cfg_accepts_word')
     if cyk.check_cyk_callers(ctx, rep) < 4:
         raise AnalysisError('fewer than 4 callers of the CYK routines found')
     cyk.check_empty_word_guard(ctx, rep, P('cfg_algorithms.cfg_accepts_word'))
@@ -356,8 +359,9 @@ def check_C10(ctx, rep):
     if n < 6:
         raise AnalysisError('fewer than 6 name-introduction sites found for C10')
     P = ctx.prog.func
-    if pda_rules.check_push_pop_split(ctx, rep, P('pda_algorithms.pda_to_push_pop_in_place')) < 9:
-        raise AnalysisError('push/pop case split not evaluated')
+    if not pda_rules.check_push_pop_model(ctx, rep, P('pda_algorithms.pda_to_push_pop_in_place')):
+        if pda_rules.check_push_pop_split(ctx, rep, P('pda_algorithms.pda_to_push_pop_in_place')) < 9:
+            raise AnalysisError('push/pop case split not evaluated')
     pda_rules.check_pda_to_cfg_pipeline(ctx, rep, P('pda_algorithms.pda_to_cfg'))
     pda_rules.check_push_pop_predicate(ctx, rep, P('pda_algorithms.pda_is_push_pop'))
     pda_rules.check_empty_stack_form(ctx, rep, P('pda_algorithms.pda_to_accept_on_empty_stack_in_place'))
@@ -494,8 +498,8 @@ def check_C17(ctx, rep):
         raise AnalysisError('fewer than 7 builder state-set arguments found')
     build.check_value_validators(ctx, rep)
     build.check_tm_default_alphabet(ctx, rep)
-    if build.check_parse_line(ctx, rep) < 4:
-        raise AnalysisError('fewer than 4 keyword stores found in parse_line')
+    if build.check_parse_line(ctx, rep) < 2:
+        raise AnalysisError('fewer than 2 keyword stores found in parse_line')
     if build.check_invariants(ctx, rep) < 30:
         raise AnalysisError('fewer than 30 invariant atoms expected')
     build.check_declared_vs_empty(ctx, rep)
@@ -731,6 +735,7 @@ def _with_hidden_state(pid, fn):
         sorts.check_sorts(ctx, rep, sfuncs)
         work.check_recursive_memo(ctx, rep, sfuncs)
         effect.check_scope_operands(ctx, rep, _roots_of(ctx, rep))
+        effect.check_shared_entries(ctx, rep, sfuncs)
         fresh.check_epsilon_constants(ctx, rep, sfuncs)
         fresh.check_epsilon_forwarded(ctx, rep, sfuncs)
         fresh.check_word_symbols(ctx, rep, sfuncs)
